@@ -154,3 +154,9 @@ Definition udp_sys_code (c : sys_case) : N :=
              then match mon_indexed max_resp rinit (swarm_history cfg steps) with None => 0 | Some i => N.succ i end
              else contract in
   bad * 4 + (if existsb (fun s => answered s && negb (is_connect s)) steps && existsb (fun s => negb (answered s)) steps then 3 else 1).
+
+(* harness `udp-quiet`: on a tracker that receives nothing for longer than max_connection_age
+   (plus one clock-refresh period), an id issued before must be answered before and NOT after *)
+Definition quiet_code (c : bool * list (bool * bool)) : N :=
+  let '(_, obs) := c in
+  (if forallb (fun o => fst o && negb (snd o)) obs then 0 else 1) * 4 + 3.
